@@ -7,6 +7,8 @@ CONSTANTS
   Depth = 2
   MaxCompose = 6
   XerVals = 2
+  ValCap = 0
+  MaxFail = 6
 INIT Init
 NEXT Next
 INVARIANTS RoundTrip WireCanonical Export
